@@ -44,6 +44,21 @@ def m_is_full(em, e, rt, rty, env, k):
     return k("(raw_full c %s)" % rt, ("bool",), env)
 
 
+def m_raw_push(em, e, rt, rty, env, k):
+    """`self.osc_raw.push(byte)`: Vec::push appends; with the `core` feature the buffer is an ArrayVec, whose push PANICS
+    when the buffer is full (arrayvec: `self.try_push(element).unwrap()`)"""
+    if len(e.args) != 1 or not (e.recv.kind == "field" and e.recv.name == "osc_raw"):
+        raise EmitError("push: only `self.osc_raw.push(byte)` is modelled")
+
+    def k1(t, _ty, env1):
+        return em.bind("(if (cfg_core c) && (raw_full c %s) then None else Some (%s ++ [%s]))" % (rt, rt, t), rty, env1,
+                       lambda x, _t, env2: em.write_place(e.recv, x, env2, lambda env3: k("tt", ("unit",), env3)), hint="pushed")
+    return em.expr(e.args[0], env, k1)
+
+
+m_raw_push.mutates = True
+
+
 # -- CharAccumulator: the utf8parse callback and the dispatch on the type parameter -----------------------
 
 def f_receiver_new(em, e, env, k):
@@ -363,6 +378,7 @@ VOCAB = {
     },
     "methods": {
         ("list", "is_full"): m_is_full,
+        ("list", "push"): m_raw_push,
     },
     # functions that are not translatable (unsafe code): modelled by hand, pinned by token hash
     "opaque": {},
